@@ -43,6 +43,7 @@ type ObjID int32
 type pelem struct {
 	i   int
 	sym *Term // symbolic index (64 bit); only allowed as the last element
+	view int  // >0: this element designates the sub-array [i:i+view] of the array (slice-to-array-pointer)
 }
 
 type PtrV struct {
@@ -73,7 +74,11 @@ func (p PtrV) key() string {
 		if e.sym != nil {
 			fmt.Fprintf(&sb, "/s%d", e.sym.ID)
 		} else {
-			fmt.Fprintf(&sb, "/%d", e.i)
+			if e.view > 0 {
+				fmt.Fprintf(&sb, "/%d:%d", e.i, e.view)
+			} else {
+				fmt.Fprintf(&sb, "/%d", e.i)
+			}
 		}
 	}
 	return sb.String()
